@@ -400,6 +400,14 @@ func (a *Analyzer) Feed(r *ev.Rec) {
 		a.onClear(n, r)
 	case "compact":
 		a.onCompact(n, r)
+		// C15 / C09: segments are unmapped now; a replication that was told to
+		// stop (its follower left the configuration) but has not returned yet
+		// still holds a view of them and reads it at its next heartbeat
+		if n != nil && r.St != nil && r.St.State == "L" && r.A > r.B {
+			a.find("C15", "log-compacted-under-a-stopped-replication", "", r.Q, "leader %s compacts its log up to %d while %d replication goroutines are running but only %d replications are known to it: one that was stopped has not returned yet and still reads the old log", n.key, r.Idx, r.A, r.B)
+			a.find("C09", "log-compacted-under-a-stopped-replication", "", r.Q, "leader %s compacts its log up to %d while %d replication goroutines are running but only %d replications are known to it", n.key, r.Idx, r.A, r.B)
+		}
+		a.stat("compactions-checked-for-stopped-replications")
 	case "commit":
 		a.onCommit(n, r)
 	case "durable":
